@@ -4,7 +4,7 @@
 # Then stores patch + demo under /verif/seeded/<ID>/. usage: tools/verify_seed.sh <ID> [dir-suffix]
 set -u
 id=$1; suf=${2:-}
-W=/tmp/seed-$id$suf
+W=/tmp/seed$suf-$id
 cd "$W" || exit 2
 [ -s SEED_PATCH.diff ] || { echo "no SEED_PATCH.diff"; exit 2; }
 demo=""
@@ -36,7 +36,7 @@ ok=0
 echo "$suite" | grep -q "94 passed" && [ $with -ne 0 ] && [ $without -eq 0 ] && ok=1
 echo "CONFIRMED=$ok"
 if [ $ok -eq 1 ]; then
-  D=/verif/seeded/$id$suf; mkdir -p "$D"
+  D=/verif/seeded/$id${suf:+-$suf}; mkdir -p "$D"
   cp SEED_PATCH.diff "$D/patch.diff"; cp "$demo" "$D/$(basename "$demo")"
   echo "{\"suite_with_change\": \"$suite\", \"demo_with_change_exit\": $with, \"demo_without_change_exit\": $without, \"demo\": \"$demo\"}" > "$D/confirm.json"
 fi
